@@ -5,9 +5,9 @@
    For every document of the fragment, the set of ALL type ids of the space the
    modelled converter produces is closed under children and every entry
    satisfies the local condition [node_ok] of C03's class
-   (C03F_convert_rt_set: this is the set-level condition [rt_set] the class
-   [rt_simple] validates; [rt_simple] computes such a set with an unverified
-   worklist, here the set is given and proved).  Hence, for EVERY type of EVERY
+   (C03F_convert_rt_set), and the class [rt_simple] of C03 itself holds for
+   every type (C03F_convert_rt_simple: the worklist of [rt_simple] is proved to
+   compute a closed set on these spaces).  Hence, for EVERY type of EVERY
    fragment document and every instance it accepts: serialisation succeeds, the
    output re-deserialises to the SAME value at every larger fuel, `null` only
    comes from `null` (C03F_fragment_roundtrip), and declared data is kept
@@ -28,6 +28,16 @@ Theorem C03F_convert_rt_set :
   forall (cls : Heck.CharClasses) (D : defs) (T : space),
     in_frag cls D = true -> convert_doc cls D = Some T -> rt_set T (all_ids T) = true.
 Proof. exact convert_rt_set. Qed.
+
+(* the checker-defined class of C03, literally: [rt_simple] (whose worklist [reach] is proved here to
+   compute a closed set on these spaces) answers `true` on EVERY type of EVERY fragment document, so
+   C03_ser_total, C03_rt_idempotent, C03_rt_fixed_point, C03_rt_contains, C03_rt_null_only_from_null
+   apply as they stand *)
+Theorem C03F_convert_rt_simple :
+  forall (cls : Heck.CharClasses) (D : defs) (T : space),
+    in_frag cls D = true -> convert_doc cls D = Some T ->
+    forall t, get T t <> None -> rt_simple T t = true.
+Proof. exact convert_rt_simple. Qed.
 
 Theorem C03F_fragment_roundtrip :
   forall (cls : Heck.CharClasses) (re native : ustring -> ustring -> bool) (D : defs) (T : space),
